@@ -114,6 +114,8 @@ def run(res, a):
                         break
                 if len(seq) > 3000:
                     continue
+                if not seq:
+                    seq = sizes[:1] * 3        # nothing but empty frames was sent: the reads find nothing and must block, not fail
                 seq = [str(x) for x in seq]
                 if rng.random() < 0.3 and len(seq) > 1:
                     # the accessory writes on the connection between reads (answers and events go out while a request is
